@@ -489,11 +489,36 @@ class Model:
         raise AnalysisError("for_property: default type not found")
 
     def class_for_property(self, name):
-        tm, _ = self.types_map()
-        reg = self.types_registry()
-        key = tm.get(name.upper(), self.types_default())
-        ent = reg.get(str(key).upper())
-        return ent[0] if ent else None
+        """The codec class TypesFactory.for_property(name) returns - by
+        interpreting for_property (E7) on a TypesFactory built by interpreting
+        its __init__; the table reading below is only the fallback."""
+        cache = self.__dict__.setdefault("_cfp_cache", {})
+        if name.upper() in cache:
+            return cache[name.upper()]
+        res = None
+        try:
+            from .absint import Interp, ClassVal, AbsRaise, Unsupported
+            it = self.__dict__.get("_cfp_interp")
+            if it is None:
+                it = Interp(self)
+                it._tf = it.instantiate(self.cls("prop.TypesFactory"), [], {})
+                self.__dict__["_cfp_interp"] = it
+            it.steps = 0
+            r = it.call(it.getattr(it._tf, "for_property"), [name], {})
+            if isinstance(r, ClassVal):
+                res = r.ci
+        except Exception as e:      # Unsupported / AbsRaise / AnalysisError: fall back
+            if type(e).__name__ not in ("Unsupported", "AbsRaise", "AnalysisError"):
+                raise
+            res = None
+        if res is None:
+            tm, _ = self.types_map()
+            reg = self.types_registry()
+            key = tm.get(name.upper(), self.types_default())
+            ent = reg.get(str(key).upper())
+            res = ent[0] if ent else None
+        cache[name.upper()] = res
+        return res
 
     def component_registry(self):
         cf = self.cls("cal.ComponentFactory")
